@@ -184,7 +184,43 @@ def s_named_like_signal(rng, nval):
     return _mk(prog, "untyped_value_named_like_a_signal", rng, nval, small=True)
 
 
-STRATA = [(s_mix, 6), (s_mix_head, 4), (s_memory, 2), (s_many, 1), (s_bundle_head, 3), (s_named_like_signal, 2)]
+def s_dup_untyped(rng, nval):
+    """The same untyped computation written twice (each gets its own placeholder) with the LATER copy consumed where the
+    signal is resolved from the reference's type: latch set / reset / value, an untyped memory, an entity's enable."""
+    far = gen.Types(rng, ("far",))
+    items = rng.sample(["iron-plate", "copper-plate", "coal", "stone", "water", "steel-plate"], k=2)
+    prog = [["input", "iron", items[0], rng.randint(0, 200)], ["input", "cop", items[1], rng.randint(0, 20)]]
+    thr = rng.randint(50, 150)
+    e = ["c", ">", ["v", "iron"], ["n", thr]] if rng.random() < 0.7 else ["b", "+", ["v", "iron"], ["n", 1]]
+    import copy
+    prog.append(["sig", "c1", copy.deepcopy(e)])
+    prog.append(["sig", "c2", copy.deepcopy(e)])
+    use = rng.choice(["latch_set", "latch_reset", "enable", "untyped_mem", "latch_set"])
+    memory = False
+    if use in ("latch_set", "latch_reset"):
+        prog.append(["mem", "m", far.fresh()])
+        other = ["c", ">", ["v", "cop"], ["n", rng.randint(5, 15)]]
+        if use == "latch_set":
+            prog.append(["latch", "m", ["n", rng.choice([1, 10])], ["v", "c2"], other, rng.choice(["sr", "rs"])])
+        else:
+            prog.append(["latch", "m", ["n", rng.choice([1, 10])], other, ["v", "c2"], rng.choice(["sr", "rs"])])
+        prog.append(["sig", "out", ["p", ["r", "m"], far.fresh()]])
+        memory = True
+    elif use == "untyped_mem":
+        prog.append(["mem", "m", None])
+        prog.append(["write", "m", ["v", "c2"], ["c", ">", ["v", "cop"], ["n", 0]]])
+        prog.append(["sig", "out", ["p", ["r", "m"], far.fresh()]])
+        memory = True
+    else:
+        prog.append(["place", "lamp", "small-lamp", ["n", 0], ["n", 20], None])
+        prog.append(["set", "lamp", "enable", ["v", "c2"]])
+        prog.append(["sig", "status", ["p", ["b", "*", ["v", "c2"], ["n", 3]], far.fresh()]])
+    prog.append(["sig", "first", ["p", ["b", "+", ["v", "c1"], ["n", 0]], far.fresh()]])
+    return _mk(prog, "duplicated_untyped_value_" + use, rng, nval, small=True,
+               edges={"iron": [thr - 1, thr, thr + 1, 0, 200], "cop": [0, 1, 4, 5, 6, 16, 20]}, memory=memory)
+
+
+STRATA = [(s_mix, 6), (s_mix_head, 4), (s_memory, 2), (s_many, 1), (s_bundle_head, 3), (s_named_like_signal, 2), (s_dup_untyped, 3)]
 
 
 def gen_cases(tier, seed):
